@@ -79,3 +79,57 @@ def strip_one_pair(v):
         if len(v) > 2 and v.startswith(a) and v.endswith(b):
             return v[1:-1]
     return v
+
+
+# ---- value schemas of the column / reference non-terminals (DESIGN Appendix D) -------------------
+# a name as delivered by the `id` non-terminal in a column / table position: never a bare dot or parenthesis
+NAME = r"[!-'*-\-/-~][!-~]*"
+TYPE_TEXT = r"[!-~]([ -~]*[!-~])?"
+STRLIT = r"'[ -&(-~]*'"
+
+
+def opt(G, name, builders):
+    """one of several alternatives (forks the path in the verifier, drawn from the model natively)"""
+    return builders[G.choice(name + "?", len(builders))]()
+
+
+def ref_inner(G, name="ref", n_cols=1, single=False):
+    """value under the key `references`: single=True is the per-column form (key `column`).
+    Leaves the productions only copy are plain symbols (None-ness of an untouched leaf is immaterial)."""
+    d = {"table": G.str(name + ".table", NAME)}
+    if not single:
+        d["columns"] = [opt(G, "%s.col%d" % (name, i), [lambda: None, lambda: G.str("%s.column%d" % (name, i), NAME)]) for i in range(n_cols)]
+    d["schema"] = G.str(name + ".schema", NAME)
+    d["on_delete"] = G.str(name + ".on_delete", NAME)
+    d["on_update"] = G.str(name + ".on_update", NAME)
+    d["deferrable_initially"] = G.str(name + ".deferrable", NAME)
+    if single:
+        d["column"] = G.str(name + ".column", NAME)
+    return d
+
+
+def column_value(G, name="col"):
+    """value of the `column` non-terminal: name, type text, size"""
+    size = opt(G, name + ".size", [lambda: None, lambda: G.int(name + ".size_n", 0)])
+    return {"name": G.str(name + ".name", NAME), "type": G.str(name + ".type", TYPE_TEXT, "varchar"), "size": size}
+
+
+def defcolumn_value(G, name="col", light=False):
+    """value of the `defcolumn` non-terminal after any number of options: the eight documented
+    attributes plus primary_key, plus optional extras other options may have left there.
+    light=True: for productions that only move the finished column around (one fork: with / without reference)"""
+    if light:
+        return {"name": G.str(name + ".name", NAME), "type": G.str(name + ".type", TYPE_TEXT, "varchar"), "size": G.int(name + ".size"),
+                "references": opt(G, name + ".references", [lambda: None, lambda: ref_inner(G, name + ".ref", single=True)]),
+                "unique": G.bool(name + ".unique"), "primary_key": G.bool(name + ".primary_key"), "nullable": G.bool(name + ".nullable"),
+                "default": G.str(name + ".default"), "check": G.str(name + ".check")}
+    d = column_value(G, name)
+    d["references"] = opt(G, name + ".references", [lambda: None, lambda: ref_inner(G, name + ".ref", single=True)])
+    d["unique"] = G.bool(name + ".unique")
+    d["primary_key"] = G.bool(name + ".primary_key")
+    d["nullable"] = G.bool(name + ".nullable")
+    d["default"] = opt(G, name + ".default", [lambda: None, lambda: G.str(name + ".default_s"), lambda: G.int(name + ".default_i")])
+    d["check"] = opt(G, name + ".check", [lambda: None, lambda: G.str(name + ".check_s", TYPE_TEXT, "x > 0")])
+    maybe = {"comment": (name + ".has_comment", G.str(name + ".comment", STRLIT, "'c'")),
+             "collate": (name + ".has_collate", G.str(name + ".collate", NAME, "utf8"))}
+    return G.record(d, maybe)
